@@ -41,3 +41,52 @@ pub fn raw_value(b: &RawBytes) -> Option<alloy::primitives::Bytes> {
 pub fn versions() -> (u32, u32) {
     (*PROTOCOL_VERSION, *DB_VERSION)
 }
+
+// ---- failpoints (crash injection in front of every persistent write) -----------------------------
+
+thread_local! {
+    static FP_COUNT: std::cell::Cell<u64> = const { std::cell::Cell::new(0) };
+    static FP_ARMED: std::cell::Cell<u64> = const { std::cell::Cell::new(0) };
+    static FP_ABORT: std::cell::Cell<bool> = const { std::cell::Cell::new(false) };
+    static FP_LOG: std::cell::RefCell<Option<Vec<&'static str>>> = const { std::cell::RefCell::new(None) };
+}
+
+/// Sentinel carried by the panic that simulates the process dying at a write.
+pub const FAILPOINT_SENTINEL: &str = "VERIF-FAILPOINT";
+
+/// Called in front of every RocksDB put/delete/flush of commit, reorg and finalise.
+pub fn failpoint(site: &'static str) {
+    let n = FP_COUNT.with(|c| {
+        c.set(c.get() + 1);
+        c.get()
+    });
+    FP_LOG.with(|l| {
+        if let Some(v) = l.borrow_mut().as_mut() {
+            v.push(site);
+        }
+    });
+    if FP_ARMED.with(|a| a.get()) == n {
+        if FP_ABORT.with(|a| a.get()) {
+            std::process::abort();
+        }
+        panic!("{} {} #{}", FAILPOINT_SENTINEL, site, n);
+    }
+}
+
+/// Reset the site counter; `armed` = index (1-based) of the site at which to die, 0 = never.
+pub fn failpoint_reset(armed: u64, abort: bool, record: bool) {
+    FP_COUNT.with(|c| c.set(0));
+    FP_ARMED.with(|a| a.set(armed));
+    FP_ABORT.with(|a| a.set(abort));
+    FP_LOG.with(|l| *l.borrow_mut() = if record { Some(Vec::new()) } else { None });
+}
+
+/// Number of sites passed since the last reset.
+pub fn failpoint_count() -> u64 {
+    FP_COUNT.with(|c| c.get())
+}
+
+/// Names of the sites passed since the last reset (if recording).
+pub fn failpoint_log() -> Vec<&'static str> {
+    FP_LOG.with(|l| l.borrow().clone().unwrap_or_default())
+}
